@@ -109,6 +109,7 @@ Fixpoint sops_of (fuel : nat) (l : list N) : list sop :=
       | 4 :: r => OList :: sops_of f r
       | 5 :: r => OServe :: sops_of f r
       | 6 :: r => OClose :: sops_of f r
+      | 7 :: r => OBreak :: sops_of f r
       | _ => []
       end
   end.
@@ -121,7 +122,9 @@ Definition tok_sout (o : sout) : list N :=
   | SGet (Some c) => 0 :: tok_cfg c
   | SList l => N.of_nat (length l) :: flat_map tok_cfg (sort_cfgs l)
   | SServe b => [5; tok_bool b]
+  | SServeBusy => [5; 3]
   | SClose b => [6; tok_bool b]
+  | SBreak b => [7; tok_bool b]
   end.
 
 (* peers for the admission op: [n; (kR iR kL iL)*] *)
